@@ -92,6 +92,32 @@ def mutate(rng, bs):
     return [rng.randrange(256) for _ in range(rng.randrange(1, 12))]
 
 
+def morph(old, fresh):
+    """make the message object `old` (which has been encoded before) carry the field values of `fresh`: list fields of equal
+    length are overwritten IN PLACE (the list object stays), everything else is assigned"""
+    import copy
+    for k, v in list(fresh.__dict__.items()):
+        ov = old.__dict__.get(k)
+        if isinstance(v, list) and isinstance(ov, list) and ov is not v and len(ov) == len(v):
+            ov[:] = v
+        else:
+            old.__dict__[k] = copy.copy(v)
+
+
+def edit_lists(obj):
+    """flip the lowest bit of the first and last element of every flat list field, IN PLACE (values stay in range, lengths stay)"""
+    done = False
+    for k, v in obj.__dict__.items():
+        if isinstance(v, list) and v and all(isinstance(x, (bool, int)) for x in v):
+            for i in {0, len(v) - 1}:
+                v[i] = (not v[i]) if isinstance(v[i], bool) else (v[i] ^ 1)
+            done = True
+    return done
+
+
+_USED = {}
+
+
 def check_batch(ctx, rep, direction, msgs, with_mutants=True):
     enc_dir, dec_dir = ('enc_req', 'dec_req') if direction == 'req' else ('enc_resp', 'dec_resp')
     mk = msggen.mk_req if direction == 'req' else msggen.mk_resp
@@ -102,9 +128,29 @@ def check_batch(ctx, rep, direction, msgs, with_mutants=True):
         case = {'kind': 'pdu', 'dir': direction, 'msg': m}
         rep.case(case, nontrivial=nontrivial(m), tag=direction + ':' + m['t'])
         rep.sample(case, cap=4)
-        ie = impl_encode(mk(m))
+        fresh = mk(m)
+        used = _USED.get((direction, type(fresh)))
+        if used is not None:
+            morph(used, fresh)
+        ie = impl_encode(fresh)
         me = model_enc(a)
         rep.compare(case, ie, me, 'encode() vs Impl.enc')
+        if used is not None:
+            # the PDU is a function of the field values the message carries NOW: an object that was encoded before with other
+            # values and has since been edited (lists in place) encodes like a new one
+            iu = impl_encode(used)
+            if iu != ie:
+                rep.violation('a message object that was encoded before and then edited does not encode the PDU of its current field values',
+                              case, finding=classify(direction, m, 'enc'), used_object=iu, fresh_object=ie)
+        _USED[(direction, type(fresh))] = fresh
+        # ... and the object just encoded, edited in place (same lists, same lengths), against a new object edited the same way
+        if isinstance(ie, list):
+            twin = mk(m)
+            if edit_lists(twin) and edit_lists(fresh):
+                ea, eb = impl_encode(fresh), impl_encode(twin)
+                if ea != eb:
+                    rep.violation('a message object that was encoded before and then edited does not encode the PDU of its current field values',
+                                  case, finding=classify(direction, m, 'enc'), used_object=ea, fresh_object=eb, edit='lowest bit of the first and last list element')
         spec = [a['fc']] + a['spec']
         if ie != spec and devinfo_fits(m):
             rep.violation('encoded PDU differs from the specification', case, finding=classify(direction, m, 'enc'),
